@@ -11,6 +11,37 @@ use crate::packet::SpaceId;
 pub struct TxLog {
     on: bool,
     lines: Vec<String>,
+    meta_on: bool,
+    pkts: Vec<TxPkt>,
+}
+
+/// One packet built by this connection, as it went into the transmit buffer (C12/C13 oracles): where it lies in
+/// the buffer handed to `poll_transmit` (so datagram boundaries follow from `Transmit::{size,segment_size}`),
+/// its size on the wire, and the types of the frames it really carries (before packet protection).
+#[derive(Debug, Clone, PartialEq, Eq)]
+pub struct TxPkt {
+    /// 0 Initial, 1 Handshake, 2 Data
+    pub space: u8,
+    pub pn: u64,
+    /// offset of the first header byte in the transmit buffer
+    pub start: usize,
+    /// bytes on the wire, header and tag included
+    pub len: usize,
+    /// long header (Initial, Handshake, 0-RTT)?
+    pub long_header: bool,
+    /// wire type of every frame in the payload, in order; consecutive PADDING bytes are one entry `0`
+    pub frame_types: Vec<u64>,
+    /// number of ranges of the ACK frames carried (0 without ACK)
+    pub ack_ranges: usize,
+    /// what the sender assumed when it started the packet (`PacketBuilder::ack_eliciting`): diagnostics only
+    pub assumed_ack_eliciting: bool,
+}
+
+fn ty_code(t: frame::FrameType) -> u64 {
+    use crate::coding::{BufExt, Codec};
+    let mut v = Vec::new();
+    t.encode(&mut v);
+    (&v[..]).get_var().unwrap_or(u64::MAX)
 }
 
 impl Connection {
@@ -24,7 +55,53 @@ impl Connection {
         std::mem::take(&mut self.verif_txlog.lines)
     }
 
+    /// Start recording per-packet meta data (`verif_take_txpkts`)
+    pub fn verif_txmeta_enable(&mut self) {
+        self.verif_txlog.meta_on = true;
+    }
+
+    /// Packets built since the last call (needs `verif_txmeta_enable`)
+    pub fn verif_take_txpkts(&mut self) -> Vec<TxPkt> {
+        std::mem::take(&mut self.verif_txlog.pkts)
+    }
+
+    /// Called right after `verif_record_tx_plain` with the position of the finished packet in the buffer
+    pub(in crate::connection) fn verif_record_tx_meta(&mut self, start: usize, len: usize, long_header: bool, assumed_ack_eliciting: bool) {
+        if !self.verif_txlog.meta_on {
+            return;
+        }
+        if let Some(p) = self.verif_txlog.pkts.last_mut() {
+            p.start = start;
+            p.len = len;
+            p.long_header = long_header;
+            p.assumed_ack_eliciting = assumed_ack_eliciting;
+        }
+    }
+
     pub(in crate::connection) fn verif_record_tx_plain(&mut self, space: SpaceId, pn: u64, payload: &[u8]) {
+        if self.verif_txlog.meta_on {
+            let mut frame_types = Vec::new();
+            let mut ack_ranges = 0;
+            if let Ok(iter) = frame::Iter::new(Bytes::copy_from_slice(payload)) {
+                for f in iter {
+                    match f {
+                        Ok(Frame::Padding) => {
+                            if frame_types.last() != Some(&0) {
+                                frame_types.push(0);
+                            }
+                        }
+                        Ok(f) => {
+                            if let Frame::Ack(a) = &f {
+                                ack_ranges += a.iter().count();
+                            }
+                            frame_types.push(ty_code(f.ty()));
+                        }
+                        Err(_) => frame_types.push(u64::MAX),
+                    }
+                }
+            }
+            self.verif_txlog.pkts.push(TxPkt { space: space as u8, pn, start: 0, len: 0, long_header: false, frame_types, ack_ranges, assumed_ack_eliciting: false });
+        }
         if !self.verif_txlog.on {
             return;
         }
